@@ -436,7 +436,9 @@ fn rich_packet(rng: &mut Rng, browsed: &Name) -> Vec<u8> {
     let mut recs = vec![
         wire::ptr(browsed, ttl, &inst),
         wire::srv(&inst, ttl, 80, &host),
-        wire::txt(&inst, ttl, vec![1, b'k']),
+        // TXT data is decoded lazily, when an event is built: well-formed, or anything at all (strings that
+        // run off the end by one byte or by many, stray zero lengths, binary keys)
+        wire::txt(&inst, ttl, if rng.chance(1, 2) { vec![1, b'k'] } else { crate::props::c16::gen_txt_bytes(rng) }),
         wire::a(&host, ttl, [10, 0, 0, 50]),
     ];
     if rng.chance(1, 3) {
